@@ -121,7 +121,7 @@ class Task(object):
     def cand(self, site, inputs, what):
         self.cands.append({'site': site, 'inputs': jsonable(inputs), 'what': what})
 
-    def decide(self, ctx, path, name, bad, site=None, inputs=None, what='', bound='', timeout_ms=None, extra=(), use_pc=True):
+    def decide(self, ctx, path, name, bad, site=None, inputs=None, what='', bound='', timeout_ms=None, extra=(), use_pc=True, retry=True):
         """discharge one obligation on one path; `inputs(model)` turns a model into replay inputs"""
         budget = float(os.environ.get('SYMX_TASK_BUDGET_S', '0') or 0)
         if budget and time.time() - self.t0 > budget:
@@ -131,7 +131,7 @@ class Task(object):
         if r == 'unknown' and not use_pc:
             r, m, dt2 = core.check(ctx, path, bad, timeout_ms=timeout_ms, extra=extra, use_pc=True)
             dt += dt2
-        if r == 'unknown':
+        if r == 'unknown' and retry:
             # one retry with a much larger budget before the obligation is reported inconclusive
             r, m, dt2 = core.check(ctx, path, bad, timeout_ms=8 * (timeout_ms or ctx.timeout_ms), extra=extra)
             dt += dt2
